@@ -611,11 +611,23 @@ def _key(o, how, i=0):
     return tuple(_cls(c, how) for c in o)
 
 
+def _vm_keys(d, how):
+    """keys for the vote map d in the container style `how`; falls back to tuples of tuples for the whole map unless
+    the converted keys stay pairwise distinct (frozensets compare coarser than tuples: {16,24} == {24,16}) and each
+    one iterates in exactly the payload's member order"""
+    keys = [_key(o, how, j) for j, (o, m) in enumerate(d)]
+    ok = len(set(keys)) == len(d) and all([list(c) for c in k] == [list(c) for c in o] for k, (o, m) in zip(keys, d))
+    if ok:
+        probe = dict(zip(keys, range(len(keys))))
+        ok = len(probe) == len(d) and all([list(c) for c in k] == [list(c) for c in d[i][0]] for k, i in probe.items())
+    return keys if ok else [_t(o) for o, m in d]
+
+
 def containers_used(op, variant):
     k, d = op
     if k == K_VM and d and variant % 4 != 3:
         how = (variant // 4) % 4
-        keys = [_key(o, how, j) for j, (o, m) in enumerate(d)]
+        keys = _vm_keys(d, how)
         out = set()
         for key in keys:
             for c in key:
@@ -630,6 +642,12 @@ def containers_used(op, variant):
     if k == K_LIST and d:
         return ["append_order_list variant %d" % (variant % 7)]
     return []
+
+
+def _checked_vm(vm, d):
+    if len(vm) != len(d):
+        raise AssertionError("harness: the vote map built from the payload lost a key")
+    return vm
 
 
 def apply_op(inst, op, variant, sink=None):
@@ -686,12 +704,14 @@ def apply_op(inst, op, variant, sink=None):
         if variant % 2 == 1:
             # a tally made with numpy (np.unique(..., return_counts=True)): counts (and ids) are numpy integers
             if variant % 4 == 3:
-                inst.append_vote_map({tuple(tuple(np.int64(a) for a in c) for c in o): np.int64(m) for o, m in d})
+                inst.append_vote_map(_checked_vm({tuple(tuple(np.int64(a) for a in c) for c in o): np.int64(m) for o, m in d}, d))
             else:
-                inst.append_vote_map({_key(o, (variant // 4) % 4, j): np.int64(m) for j, (o, m) in enumerate(d)})
+                keys = _vm_keys(d, (variant // 4) % 4)
+                inst.append_vote_map(_checked_vm({k_: np.int64(m) for k_, (o, m) in zip(keys, d)}, d))
         else:
             # the same votes written with other hashable containers for the classes (tuples / frozensets / ranges)
-            inst.append_vote_map({_key(o, (variant // 4) % 4, j): m for j, (o, m) in enumerate(d)})
+            keys = _vm_keys(d, (variant // 4) % 4)
+            inst.append_vote_map(_checked_vm({k_: m for k_, (o, m) in zip(keys, d)}, d))
         return op
     if k == K_POP:
         which, nv, na, p3, seed = d
